@@ -4,6 +4,8 @@ from props import gen_props
 
 
 def run(ctx):
+    from props import gen_unbounded
+    gen_unbounded.run_final_construct(ctx)     # unbounded part: FinalConstruct() for any number of exposed ports
     only = os.environ.get('PYVC_SHAPES')
     gen_props.run_property(ctx, 'C10', only.split(',') if only else None)
 
